@@ -21,7 +21,7 @@ from props_c08 import pymember, build, detuple, LANGS
 import collections, multiprocessing
 
 LEVEL = 'proof'
-ATOMS = ('p', 'q', 'Ab', 'AX', 'orb', 'true_', '_x1')
+ATOMS = ('p', 'q', 'Ab', 'AX', 'orb', 'true_', '_x1', 'True', 'False')   # True/False: Python's spellings are NOT reserved words of the logics
 MAXV = 40
 LOGIC_OPS = ('not', 'or', 'and', 'imp')
 
@@ -405,17 +405,17 @@ def run(R):
         T[name] = round(T.get(name, 0) + time.time() - t_last[0], 1)
         t_last[0] = time.time()
     R.rule = ('formulas of ONE logic (PL / CTL* / CTL state+path / LTL path+A-formulas) over the identifier, non-reserved atoms '
-              + ', '.join(ATOMS) + ' and true/false: all ordered pairs of the depth <= 1 enumeration over {p, AX, true} (quick) resp. of the depth <= 2 '
+              + ', '.join(ATOMS) + ' and true/false: all ordered pairs of the depth <= 1 enumeration over {p, AX, True, False, true, false} (quick) resp. of the depth <= 2 '
               'enumeration over {AX, true} (thorough, worker processes), sampled pairs of the depth <= 2 enumeration and of random formulas of depth <= 5 with '
               'ternary and/or, each formula also paired with a separately built copy, with a copy built from RAW str/bool operands and the &,|,~ operators, and with a one-edit near miss (atom renamed, operands swapped, '
               'operator swapped, (a or b or c) regrouped, operand duplicated); triples = {f, copy, near miss} permutations; every formula printed (str, repr) '
               'against the model printer in every module that can hold it; every formula cloned, id walk + mutation of every node; '
               'non-trivial = equal pair of distinct objects of height >= 1, near-miss pair, triple with a repeated tree, clone of height >= 1, CTL compact print')
-    small_leaves = [('ap', 'p'), ('ap', 'AX'), ('true',)]
+    small_leaves = [('ap', 'p'), ('ap', 'AX'), ('true',), ('false',), ('ap', 'True'), ('ap', 'False')]
     ap_leaves = [('ap', 'AX'), ('true',)]
     pool1 = {L: enum_logic(L, 1, small_leaves) for L in LANGS}
     enum2 = {L: enum_logic(L, 2, ap_leaves) for L in LANGS}
-    R.cov['enumeration_sizes'] = {'depth<=1 over {p,AX,true}': {L: len(v) for L, v in pool1.items()},
+    R.cov['enumeration_sizes'] = {'depth<=1 over {p,AX,True,False,true,false}': {L: len(v) for L, v in pool1.items()},
                                   'depth<=2 over {AX,true}': {L: len(v) for L, v in enum2.items()}}
     for L in LANGS:
         assert all(pymember(L, f) for f in pool1[L]) and all(pymember(L, f) for f in enum2[L])
